@@ -51,17 +51,20 @@ def sim_bindings(*handles):
             swapped.append((hnd, hnd.__class__))
             hnd.__class__ = simcls
     lp = bootstrap.sim_lazy_pool()
-    saved = (di.LazyPool, di.ThreadPoolExecutor)
-    di.LazyPool = lp.LazyPool
-    di.ThreadPoolExecutor = simexec.SimExecutor
-    extra = {}
-    for name, repl in (("as_completed", None), ("wait", None)):
+    # (only names the module really has: a restructured module may import
+    # neither; whatever else it takes from threading / queue /
+    # concurrent.futures is rebound by sched.patch_sedpack_globals)
+    saved = {}
+    for name, repl in (("LazyPool", lp.LazyPool),
+                       ("ThreadPoolExecutor", simexec.SimExecutor)):
         if hasattr(di, name):
-            extra[name] = getattr(di, name)
+            saved[name] = getattr(di, name)
+            setattr(di, name, repl)
     try:
         yield
     finally:
-        di.LazyPool, di.ThreadPoolExecutor = saved
+        for name, val in saved.items():
+            setattr(di, name, val)
         for hnd, cls in swapped:
             hnd.__class__ = cls
 
